@@ -174,6 +174,23 @@ struct C06 : Scenario {
 				if (!clash) p.fs.push_back(e);
 			}
 		}
+		if (!print && rng.chance(1, 5)) {
+			std::string base = "/w/x/y/root/";
+			if (!op.w.empty()) base = (op.w[0] == '/' ? op.w : base + op.w) + "/";
+			for (auto &m : p.members) {
+				if (m.kind != 'd' || op.i || !rng.chance(1, 2)) continue;
+				FsEnt e;
+				e.type = 'd';
+				e.path = base + m.gpath;
+				while (e.path.size() > 1 && e.path.back() == '/') e.path.pop_back();
+				e.mode = rng.chance(1, 2) ? 0751 : 0700;
+				e.uid = e.gid = (int) p.geti("euid");
+				e.mtime = 1234500000;
+				bool clash = false;
+				for (auto &x : p.fs) if (x.path == e.path) clash = true;
+				if (!clash) p.fs.push_back(e);
+			}
+		}
 		if (prompt) {
 			static const char *ans[] = {"y\n", "n\n", "\n", "a\n", "s\n", "Y\n", "N\n", "q\ny\n", "yes please\n", "no\n", "x\n\n", "A\n", "S\n"};
 			std::string s;
@@ -341,7 +358,16 @@ struct C06 : Scenario {
 			const Inode &n = fs.nodes[ino];
 			if (m.original) {
 				std::string now = strf("%c %o %lld %zu:%04x %s", n.type, n.mode, (long long) n.mtime, n.data.size(), crc16_bitwise(n.data), n.target.c_str());
-				if (n.type == 'd') continue;   // directories of the initial tree may gain children
+				if (n.type == 'd') {
+					// directories of the initial tree may gain children (so their mtime may move), but they were not created by
+					// this run: their permissions are not the archive's business
+					int was = (int) strtol(m.orig_dump.c_str() + 2, nullptr, 8);
+					if ((n.mode & 07777) != (was & 07777)) {
+						res.fail("C06.preexisting_dir_mode", "preexisting_dir", ctx + ": " + e.first + strf(" existed before the run with mode %o and now has %o", was & 07777, n.mode & 07777));
+						return false;
+					}
+					continue;
+				}
 				if (now != m.orig_dump) { res.fail("C06.overwrite_policy", "policy", ctx + ": " + e.first + " existed before and must not have been replaced (was: " + m.orig_dump + ", now: " + now + ")"); return false; }
 				continue;
 			}
